@@ -181,7 +181,72 @@ where
 }
 
 /// C08: constructing a field element from any integer yields the canonical element
+/// construction from a byte slice: every slice of 0..=ceil(bits/8)+1 bytes over the byte alphabet
+/// {0x00, 0x01, 0x80, 0xff} (<= 3 bytes exhaustively over it, longer ones all-equal): the constructor
+/// may refuse the slice, but what it returns is a canonical element - it survives its own encoding,
+/// and equals the element rebuilt from its integer value
+fn from_slice<T>(name: &str, bits: u32, r: &mut Report)
+where
+    T: Serializable + PartialEq + std::fmt::Debug + U128Conversions + for<'a> TryFrom<&'a [u8]>,
+{
+    let mut t = Tally { cases: 0, first: None, bad: 0 };
+    let full = bits.div_ceil(8) as usize;
+    let alphabet = [0x00u8, 0x01, 0x80, 0xff];
+    let mut slices: Vec<Vec<u8>> = vec![Vec::new()];
+    for len in 1..=full + 1 {
+        if len <= 3 {
+            let mut cur: Vec<Vec<u8>> = vec![Vec::new()];
+            for _ in 0..len {
+                cur = cur.into_iter().flat_map(|c| alphabet.iter().map(move |b| { let mut c = c.clone(); c.push(*b); c })).collect();
+            }
+            slices.extend(cur);
+        } else {
+            for b in alphabet {
+                slices.push(vec![b; len]);
+                let mut v = vec![0u8; len];
+                v[len - 1] = b;
+                slices.push(v);
+            }
+        }
+    }
+    for sl in slices {
+        t.cases += 1;
+        match common::catch(|| T::try_from(sl.as_slice()).ok()) {
+            Ok(Some(x)) => {
+                let v = x.as_u128();
+                if bits < 128 && v >> bits != 0 {
+                    t.bad += 1;
+                    t.first.get_or_insert(("from-slice".to_string(), format!("try_from({sl:02x?}) returned the element {v:#x}, which has bits set beyond the {bits} bits of the type")));
+                }
+                if x != T::truncate_from(v) {
+                    t.bad += 1;
+                    t.first.get_or_insert(("from-slice".to_string(), format!("try_from({sl:02x?}) returned {x:?}, which differs from the element rebuilt from its own integer value {v:#x}")));
+                }
+                canon(&mut t, &format!("try_from({sl:02x?})"), &x);
+            }
+            Ok(None) => {}
+            Err(p) => {
+                t.bad += 1;
+                t.first.get_or_insert(("from-slice".to_string(), format!("try_from({sl:02x?}) panicked: {p}")));
+            }
+        }
+    }
+    r.add("evaluations", t.cases);
+    r.add("distinct_nontrivial", t.cases);
+    r.add("from_slice_cases", t.cases);
+    if let Some((op, what)) = t.first {
+        r.violation(&format!("ctor-canonical:{name}:{op}"), &format!("{what} ({} failing cases)", t.bad), json!({"part":"fields","type":name,"op":"from-slice"}));
+    }
+}
+
 pub fn run_field_ctors(r: &mut Report) {
+    from_slice::<crate::ff::Gf2>("Gf2", 1, r);
+    from_slice::<Gf3Bit>("Gf3Bit", 3, r);
+    from_slice::<Gf9Bit>("Gf9Bit", 9, r);
+    from_slice::<Gf20Bit>("Gf20Bit", 20, r);
+    from_slice::<crate::ff::Gf8Bit>("Gf8Bit", 8, r);
+    from_slice::<crate::ff::Gf32Bit>("Gf32Bit", 32, r);
+    from_slice::<crate::ff::Gf40Bit>("Gf40Bit", 40, r);
     ctor::<Fp31>("ctor-canonical", "Fp31", 31, true, r);
     ctor::<Fp32BitPrime>("ctor-canonical", "Fp32BitPrime", u128::from(Fp32BitPrime::PRIME), true, r);
     ctor::<Fp61BitPrime>("ctor-canonical", "Fp61BitPrime", u128::from(Fp61BitPrime::PRIME), true, r);
